@@ -13,7 +13,9 @@ Query == {"source", "ast", "severity", "findings", "imports", "calls", "flags", 
           "nonstd", "unsafe", "trace", "dumps",
           \* decompiling / tracing the way the command line does for a member of a stack (own variable numbering and
           \* result name): a read-only query like the others
-          "source_cli", "trace_cli"}
+          "source_cli", "trace_cli",
+          \* the safety check with a caller-supplied analyzer (every analysis on its own; the ML recipe)
+          "findings_each", "severity_ml"}
 Where == {"reparse", "fresh1", "fresh2"}      \* switch to a re-parsed copy (the harness rotates: from the byte string, from a
                                               \* stream behind other bytes, as the second member of a stack) / a fresh process
 Step  == Query \cup Where
